@@ -100,6 +100,7 @@ type State struct {
 	bind     map[string]*term.T
 	noIntrinsic *ssa.Function
 	failedAsserts int
+	syncMaps map[string]*[]syncMapEntry
 	guards map[*Obj]guardInfo
 	vmOnlyFailure bool
 	fmtDepth int
